@@ -687,9 +687,17 @@ package server
 //@   call Tombstone requires [replay-only-tombstones] recovered
 // the consumer groups learn of the deletion as part of applying it (same point of the commit order on every server),
 // and only when it really is a deletion (not during replay, where the stream is only tombstoned)
+// ("servers that applied the same sequence of group operations hand out identical assignments for the same group
+//  epoch", "a server that restarts and rebuilds its state from ... log replay reaches the state it had before": a
+//  rebalance depends on the load the members carry at that moment, so the groups must see the deletion at the same place
+//  of the sequence on every server) - whether the log is being replayed or not, and with the deletion's own index
+//@ ghost var groupsTold bool
 //@ func (*metadataAPI).RemoveStream serves C06, C12
+//@   ghost at entry: ghost.groupsTold := false
+//@   ghost after call streamDeleted: ghost.groupsTold := true
 //@   call removeStreamLocked requires [same-operation] arg1 == stream && arg2 == recovered && arg3 == epoch
-//@   call streamDeleted requires [only-a-real-deletion] !recovered && arg2 == epoch
+//@   call streamDeleted requires [told-with-the-deletion's-own-index] arg2 == epoch
+//@   ensures [the-groups-are-told-at-the-deletion's-own-place-replayed-or-not] result == nil ==> ghost.groupsTold
 // (the groups refuse a notice older than their own epoch, and group operations replayed after the delete have raised it:
 //  the deferred notice of a replayed delete must carry the index at which the replay ended, the caller's epoch)
 //@ func (*metadataAPI).RemoveTombstonedStream serves C06
